@@ -50,11 +50,14 @@ func (c JSONMapCodec) size(ptr unsafe.Pointer) (size int) {
 
 	// We'll use the WTSlice wire type, so first is the number of items
 	size = plenccore.SizeVarUint(uint64(len(m)))
+	verifMapIter(len(m))
 	for k, v := range m {
+		verifYield("json.size")
 		// With WTSlice each item is preceeded by its length
 		itemSize := c.sizeKV(k, v)
 		size += plenccore.SizeVarUint(uint64(itemSize)) + itemSize
 	}
+	verifMapIterEnd()
 	return size
 }
 
@@ -74,11 +77,14 @@ func (c JSONMapCodec) append(data []byte, ptr unsafe.Pointer) []byte {
 	data = plenccore.AppendVarUint(data, uint64(len(m)))
 
 	// Next each item preceeded by its length
+	verifMapIter(len(m))
 	for k, v := range m {
+		verifYield("json.encode")
 		s := c.sizeKV(k, v)
 		data = plenccore.AppendVarUint(data, uint64(s))
 		data = c.appendKV(data, k, v)
 	}
+	verifMapIterEnd()
 
 	return data
 }
@@ -164,6 +170,7 @@ func (c JSONArrayCodec) size(ptr unsafe.Pointer) (size int) {
 	size = plenccore.SizeVarUint(uint64(len(a)))
 	// Each entry is encoded preceeded by its length
 	for _, val := range a {
+		verifYield("json.size")
 		itemSize := sizeJSONValue(val)
 		size += plenccore.SizeVarUint(uint64(itemSize)) + itemSize
 	}
@@ -175,6 +182,7 @@ func (c JSONArrayCodec) append(data []byte, ptr unsafe.Pointer) []byte {
 	data = plenccore.AppendVarUint(data, uint64(len(a)))
 	// Each entry is encoded preceeded by its length
 	for _, val := range a {
+		verifYield("json.encode")
 		itemSize := sizeJSONValue(val)
 		data = plenccore.AppendVarUint(data, uint64(itemSize))
 		data = appendJSONValue(data, val)
